@@ -49,3 +49,32 @@ Proof.
   rewrite process_inlines_shape, !replace_walk_shape. reflexivity.
 Qed.
 Print Assumptions C19_typographer_shape.
+
+(* ---- smartquotes only substitutes straight quote characters, in place -------------------------- *)
+From MD Require Import Lemmas.QuoteSubst.
+
+(* [qs quotes a b]: b is a with straight quote characters replaced one at a time: each step
+   replaces ONE character that is a straight single or double quote at that moment by the
+   apostrophe or by an entry of the quotes option.  [QS quotes ch ch']: position by position, the
+   content of ch' is related to the content of ch in this way.  For every quotes option (any
+   strings, any length, the empty string included) and every token list: whatever smartquotes
+   changes in the children of an inline token is such a substitution - all other text stays. *)
+Theorem C19_smartquotes_only_substitutes_quotes :
+  forall b quotes ts,
+  Forall2 (fun t t' => match tchildren t, tchildren t' with
+                       | Some ch, Some ch' => QS quotes ch ch' | None, None => True | _, _ => False end)
+          ts (smartquotes b quotes ts).
+Proof. exact smartquotes_qs. Qed.
+Print Assumptions C19_smartquotes_only_substitutes_quotes.
+
+Theorem C19_process_inlines_only_substitutes_quotes :
+  forall quotes tokens, QS quotes tokens (process_inlines quotes tokens).
+Proof. exact process_inlines_qs. Qed.
+Print Assumptions C19_process_inlines_only_substitutes_quotes.
+
+(* a replacement leaves every position to its left alone - why the positions remembered on the
+   stack of unmatched openers stay valid when replacement strings have other lengths than one *)
+Theorem C19_replace_at_left_untouched :
+  forall (s : str) q x p, 0 <= p -> p < q -> q < len s -> char_at (replace_at s q x) p = char_at s p.
+Proof. exact replace_at_before. Qed.
+Print Assumptions C19_replace_at_left_untouched.
